@@ -71,7 +71,7 @@ class C12(Prop):
     id = 'C12'
     num = 12
     regions = {'quick': [('sched', 110), ('sched_block', 60), ('schedpre', 110), ('slotted', 80), ('slotted_pre', 50), ('renege_schedpre', 30), ('all', 60),
-                         ('renege', 20), ('spf_sched', 40)]}
+                         ('renege', 20), ('spf_sched', 40), ('schedpre_block', 100), ('schedpre_tandem', 80)]}
     rule = ('one case = one observed run with a Schedule or Slotted node, or one differential comparison of a Schedule/Slotted '
             'object with the Gallina generator model over >= 12 shifts; non-trivial run = >= 2 full cycles of the timetable, '
             'a zero-server shift or a slot, and >= 1 overtime or interruption; distinct = distinct configuration hashes')
